@@ -257,10 +257,22 @@ func c01Check(c c01Case) kit.Outcome {
 				return out
 			}
 			// arrival-anchored: however long the invocation waited (for an initialisation, for the runtime), the deadline is
-			// arrival + timeout; the tolerance covers the way from my clock reading to the front end (plus host starvation)
-			if tol := int64(250 + 2*tr.MaxLagMs); dl > iss.WallMs+tmo+tol {
-				out.Violate("C01/deadline-not-arrival-anchored", "invocation %s: deadline is %d ms after arrival + timeout (it waited %d ms before it was delivered)", tag, dl-iss.WallMs-tmo, e.WallMs-iss.WallMs)
-				return out
+			// arrival + timeout. "Arrival" is only observable as my clock reading before the request is sent; the front end
+			// reads the whole event before it computes the deadline, and for a multi-megabyte event in a cold process that
+			// alone took 275 ms here and 494 ms in a freshly restored sandbox (a false alarm of the first version of this
+			// rule). So the rule is applied to events of at most 256 KiB, whose upload is negligible; the tolerance covers
+			// the way from my clock reading to the front end plus host starvation.
+			waited := e.WallMs - iss.WallMs
+			if want.Len > 256<<10 {
+				out.Label("deadline:arrival-rule-skipped-large-event")
+			} else {
+				if waited > 300 {
+					out.Label("deadline:arrival-rule-applied-after-wait>300ms")
+				}
+				if tol := int64(250 + 2*tr.MaxLagMs); dl > iss.WallMs+tmo+tol {
+					out.Violate("C01/deadline-not-arrival-anchored", "invocation %s: deadline is %d ms after arrival + timeout (it waited %d ms before it was delivered)", tag, dl-iss.WallMs-tmo, waited)
+					return out
+				}
 			}
 		}
 		// what the runtime was told about its submission
